@@ -38,6 +38,8 @@ def translate_and_run(exe, lines, wd, tag, cflags=('-O1',)):
     rc, out, err = vlib.sh([exe, 'emitc', cfile], input=('\n'.join(lines) + '\n').encode(), timeout=900)
     if rc == 124:
         return {}, [(None, 'mir2c did not terminate within 900 s on %d one-instruction functions' % len(lines))]
+    if 'cannot map the fixed-address blocks' in out:
+        raise vlib.BuildError('harness c02_insn emitc: the fixed addresses of the C20 data block are occupied in this process')
     if rc != 0:
         m = re.search(r'^(\S+) ERR\((.*)\)', out, re.M)
         return {}, [(m.group(1) if m else None, 'mir2c failed: %s' % (out + err)[-300:])]
@@ -56,6 +58,8 @@ def translate_and_run(exe, lines, wd, tag, cflags=('-O1',)):
             return {}, [(None, 'gcc rejects the translation: %s' % ' | '.join(first))]
         return {}, [(i, 'gcc rejects the translation: %s' % t) for i, t in per.items()]
     rc, out, err = vlib.sh([exe, 'runso', so], input=('\n'.join(lines) + '\n').encode(), timeout=900)
+    if 'cannot map the fixed-address blocks' in out:
+        raise vlib.BuildError('harness c02_insn runso: the fixed addresses of the C20 data block are occupied in this process')
     res = {}
     for l in out.split('\n'):
         if l.strip():
